@@ -840,9 +840,6 @@ theorem addEmptyAxes_some (names : List String) (ps : Props) :
 
 theorem any_name_iff (acc : Props) (ax : String) : acc.any (fun kv => kv.1 = ax) = true ↔ ax ∈ acc.map (·.1) := by
   simp only [List.any_eq_true, decide_eq_true_eq, List.mem_map]
-  constructor
-  · rintro ⟨kv, hm, rfl⟩; exact ⟨kv, hm, rfl⟩
-  · rintro ⟨kv, hm, rfl⟩; exact ⟨kv, hm, rfl⟩
 
 theorem foldl_axStep_spec (names : List String) : ∀ (ps : Props),
     (ps.map (·.1)).Nodup →
@@ -902,7 +899,127 @@ theorem forM_ok {α} (f : α → Outcome Unit) (l : List α) (h : ∀ x ∈ l, f
   induction l with
   | nil => rfl
   | cons a t ih =>
-    rw [List.forM_cons, h a (List.mem_cons_self ..)]
+    have : (a :: t).forM f = (do f a; t.forM f) := by simp [List.forM]
+    rw [this, h a (List.mem_cons_self ..)]
     exact ih (fun x hx => h x (List.mem_cons_of_mem _ hx))
+
+/-! ### well-formed graphs (what C01 quantifies over) -/
+
+/-- the rows of a property line up with `n` graph elements -/
+def RowsOK (n : Nat) (p : PropArr) : Prop :=
+  (∀ m, p.missing = some m → m.shape = [n] ∧ m.WF) ∧
+  match p.values with
+  | .dense a => a.shape.head? = some n ∧ a.WF
+  | .obj es => es.length = n
+
+/-- a well-formed in-memory graph with `n` nodes, `e` edges, node properties `nps`, edge properties `eps` -/
+structure WFGeff (g : InMem) (n e : Nat) (nps eps : Props) : Prop where
+  nodeShape : g.nodeIds.shape = [n]
+  edgeShape : g.edgeIds.shape = [e, 2]
+  idInt : g.nodeIds.dtype.isInteger = true
+  idSame : g.edgeIds.dtype = g.nodeIds.dtype
+  nodeIdsWF : g.nodeIds.WF
+  edgeIdsWF : g.edgeIds.WF
+  nodeProps : g.nodeProps = some nps
+  edgeProps : g.edgeProps = some eps
+  nodeNames : (nps.map (·.1)).Nodup
+  edgeNames : (eps.map (·.1)).Nodup
+  nodeOK : ∀ kp ∈ nps, Writable kp.1 kp.2 ∧ RowsOK n kp.2
+  edgeOK : ∀ kp ∈ eps, Writable kp.1 kp.2 ∧ RowsOK e kp.2
+
+/-- the caller's axes are consistent with the graph (docs/specification.md: an axis names a 1-D node
+property without missing values); on an empty graph an axis may have no property yet -/
+def AxesOK (md : CallerMeta) (n : Nat) (nps : Props) : Prop :=
+  ∀ axes, md.axes = some axes → ∀ ax ∈ axes, validName ax = true ∧
+    (n = 0 ∨ ∃ a, lookupKey ax nps = some ⟨.dense a, none⟩ ∧ a.shape = [n] ∧ a.WF ∧ a.dtype ≠ .str)
+
+/-- the node properties the reader must return: the ones given, plus — documented in `write_arrays` —
+an empty float64 property for every axis without one when the graph is empty -/
+def expectedNodeProps (md : CallerMeta) (n : Nat) (nps : Props) : Props :=
+  if n = 0 then addEmptyAxes md.axes nps else nps
+
+theorem nodePropsToWrite_eq (g : InMem) (md : CallerMeta) (n : Nat) (nps : Props)
+    (hs : g.nodeIds.shape = [n]) (hp : g.nodeProps = some nps) :
+    nodePropsToWrite g md = some (expectedNodeProps md n nps) := by
+  unfold nodePropsToWrite expectedNodeProps NdArr.len?
+  rw [hs, hp]
+  cases n with
+  | zero => rfl
+  | succ k => simp
+
+theorem writable_emptyF64 (ax : String) (h : validName ax = true) : Writable ax emptyF64 :=
+  ⟨h, (fun m hm => (by cases hm)), (by show Dtype.f64 ∈ denseDtypes; decide)⟩
+
+theorem expected_spec (md : CallerMeta) (n : Nat) (nps : Props) (hnd : (nps.map (·.1)).Nodup)
+    (hok : ∀ kp ∈ nps, Writable kp.1 kp.2 ∧ RowsOK n kp.2) (hax : AxesOK md n nps) :
+    ((expectedNodeProps md n nps).map (·.1)).Nodup ∧
+    (∀ kp ∈ expectedNodeProps md n nps, Writable kp.1 kp.2) ∧
+    checkAxes md.axes (some (expectedNodeProps md n nps)) = .ok () := by
+  unfold expectedNodeProps
+  cases haxes : md.axes with
+  | none =>
+    have : addEmptyAxes none nps = nps := rfl
+    rw [this]
+    simp only [ite_self]
+    exact ⟨hnd, fun kp hm => (hok kp hm).1, rfl⟩
+  | some names =>
+    have hA := hax names haxes
+    by_cases hn : n = 0
+    · rw [if_pos hn, addEmptyAxes_some]
+      obtain ⟨h1, h2, _, h4⟩ := foldl_axStep_spec names nps hnd
+      refine ⟨h1, ?_, ?_⟩
+      · intro kp hm
+        rcases h2 kp hm with h | ⟨h, h'⟩
+        · exact (hok kp h).1
+        · rw [h']; exact writable_emptyF64 kp.1 (hA kp.1 h).1
+      · unfold checkAxes
+        simp only []
+        apply forM_ok
+        intro ax hmem
+        have hs := (lookupKey_isSome_iff ax (names.foldl axStep nps)).2 (h4 ax hmem)
+        cases hl : lookupKey ax (names.foldl axStep nps) with
+        | none => rw [hl] at hs; cases hs
+        | some p =>
+          simp only []
+          rcases h2 (ax, p) (lookupKey_mem _ _ _ hl) with h | ⟨_, h'⟩
+          · have hr := (hok (ax, p) h).2.2
+            simp only at hr
+            unfold axisMinMaxOutcome
+            cases hv : p.values with
+            | dense a =>
+              rw [hv] at hr
+              simp only []
+              have : a.len? = some 0 := by unfold NdArr.len?; rw [hr.1, hn]
+              unfold axisMinMaxDense
+              rw [if_neg (by rw [this]; simp), if_pos this]; rfl
+            | obj es =>
+              rw [hv] at hr
+              simp only at hr
+              have : es = [] := List.eq_nil_of_length_eq_zero (by rw [hr, hn])
+              rw [this]; rfl
+          · simp only at h'
+            rw [h']; rfl
+    · rw [if_neg hn]
+      refine ⟨hnd, fun kp hm => (hok kp hm).1, ?_⟩
+      unfold checkAxes
+      simp only []
+      apply forM_ok
+      intro ax hmem
+      rcases (hA ax hmem).2 with h0 | ⟨a, hl, hsh, hwf, hstr⟩
+      · exact absurd h0 hn
+      · rw [hl]
+        simp only [axisMinMaxOutcome]
+        have hlen : a.len? = some n := by unfold NdArr.len?; rw [hsh]; rfl
+        have hne : a.flat.isEmpty = false := by
+          unfold NdArr.WF at hwf
+          rw [hsh] at hwf
+          have : a.flat.length = n := by rw [hwf]; simp [prod]
+          cases hf : a.flat with
+          | nil => rw [hf] at this; exact absurd this.symm hn
+          | cons x t => rfl
+        unfold axisMinMaxDense
+        rw [if_neg (by rw [hlen]; simp), if_neg (by rw [hlen]; simpa using hn), if_neg hstr,
+          if_neg (by simp [allMissing, hne])]
+        rfl
 
 end Geff.WR
